@@ -224,7 +224,7 @@ theorem StoreInv_applyTx {st st' : Store} (inv : StoreInv st) (t : TxIn) (h : ap
     · left
       simp only [ht, if_true]
       exact congrArg some (upsertRow_fold inv k _)
-    · simp only [ht, if_false]
+    · simp only [ht]
       have hz : foldVolumes k t.postings = Volumes.zero := foldVolumes_untouched (by simpa using ht)
       rcases inv.av k with h1 | ⟨h1, h2⟩
       · left; rw [h1, hz, Volumes.add_zero]; rfl
